@@ -140,6 +140,16 @@ func deferRec(v, k int) string {
 	return fmt.Sprintf("\tdefer func() {\n\t\tv := recover()\n\t\tprintln(\"rec\", %d, pv(v))\n\t}()\n", k)
 }
 
+// expected is the predicted output of the scenario program: the program runs the
+// family a second time when the first run returns (Unwind.tla: a returned family
+// leaves no pending panic, deferred call or recovery state behind).
+func (s *scenario) expected() []string {
+	if s.Out.End == "exit" {
+		return append(append([]string{}, s.want...), s.want...)
+	}
+	return s.want
+}
+
 func (s *scenario) lines() []string {
 	var ls []string
 	for _, t := range s.Out.Obs {
@@ -302,7 +312,7 @@ func render(batch []*scenario) map[string]string {
 		fmt.Fprintf(&b, "\tcase %d:\n\t\treturn %s\n", n, callExpr(batch[n].V, n, 1))
 	}
 	b.WriteString("\t}\n\treturn -1\n}\n\n")
-	b.WriteString("func main() {\n\tdone := make(chan bool)\n\tgo func() {\n\t\tx := run(argN())\n\t\tprintln(\"ret\", x)\n\t\tdone <- true\n\t}()\n\t<-done\n}\n")
+	b.WriteString("func main() {\n\tdone := make(chan bool)\n\tgo func() {\n\t\tx := run(argN())\n\t\tprintln(\"ret\", x)\n\t\t// a family that returns leaves no trace in the run time: the second run prints the same\n\t\ty := run(argN())\n\t\tprintln(\"ret\", y)\n\t\tdone <- true\n\t}()\n\t<-done\n}\n")
 	return map[string]string{"main.go": b.String(), "args_js.go": argsJS, "args_native.go": argsNative}
 }
 
@@ -424,7 +434,7 @@ func runScenarios(c *core.Ctx, pool *gjs.Pool, scens []*scenario) {
 		}
 	}
 	for _, f := range fails {
-		files := map[string]string{"scenario.json": f.s.raw + "\n", "variant.txt": variantNames[f.s.V] + "\n", "predicted.txt": strings.Join(f.s.want, "\n") + "\nend=" + f.s.Out.End + "\n", "observed.txt": f.got.Raw + "\nend=" + f.got.End + " " + f.got.Msg + "\n"}
+		files := map[string]string{"scenario.json": f.s.raw + "\n", "variant.txt": variantNames[f.s.V] + "\n", "predicted.txt": strings.Join(f.s.expected(), "\n") + "\nend=" + f.s.Out.End + "\n", "observed.txt": f.got.Raw + "\nend=" + f.got.End + " " + f.got.Msg + "\n"}
 		for n, content := range render([]*scenario{f.s}) {
 			files["prog/"+n] = content
 		}
@@ -483,12 +493,13 @@ func evalScenarios(c *core.Ctx, pool *gjs.Pool, scens []*scenario) ([]fail, int)
 				if o.End != s.Out.End {
 					return false, fmt.Sprintf("ends with %s (%s), predicted %s", o.End, o.Msg, s.Out.End)
 				}
-				if len(o.Lines) != len(s.want) {
-					return false, fmt.Sprintf("printed %d lines, predicted %d", len(o.Lines), len(s.want))
+				want := s.expected()
+				if len(o.Lines) != len(want) {
+					return false, fmt.Sprintf("printed %d lines, predicted %d", len(o.Lines), len(want))
 				}
 				for i := range o.Lines {
-					if o.Lines[i] != s.want[i] {
-						return false, fmt.Sprintf("line %d is %q, predicted %q", i+1, o.Lines[i], s.want[i])
+					if o.Lines[i] != want[i] {
+						return false, fmt.Sprintf("line %d is %q, predicted %q", i+1, o.Lines[i], want[i])
 					}
 				}
 				if o.End == "panic" {
